@@ -153,9 +153,10 @@ def _hstyle(st):
 
 
 _REF = r'\d+(?:-\d+)*'
-_SHAPE = r'[\(\[\{>/\\]+"([^"]*)"[\)\]\}/\\]+'
-_FLOW = re.compile(rf'^({_REF})(?:{_SHAPE})?(?::::class[\d-]+)? (\S+?)(?:\|([^|]*)\|)? ({_REF}){_SHAPE}(?::::class[\d-]+)?$',
-                   re.S)
+_OPEN, _CLOSE = r'[\(\[\{>/\\]+', r'[\)\]\}/\\]+'
+# labels are written unescaped: the source's label is matched lazily, the destination's greedily
+_FLOW = re.compile(rf'^({_REF})(?:{_OPEN}"(.*?)"{_CLOSE})?(?::::class[\d-]+)? (\S+?)(?:\|([^|]*)\|)? '
+                   rf'({_REF}){_OPEN}"(.*)"{_CLOSE}(?::::class[\d-]+)?$', re.S)
 
 
 def _snapshot(roots):
@@ -414,7 +415,7 @@ NAME_POOLS = {
     "affix": ["a", "xa", "ab", "b", "bc", "a", "abc", "b", "c", "xa", "abcd", "xab"],
     "lengths": ["a", "bbbb", "cc", "ddddddd", "e", "fff", "gggggg", "hh", "iiiii", "j", "kkkkkkkk", "ll"],
     "special": ["a b", "x.y", "(", "+", "a'", "0", "a1", "a", "10", "-", "|", "│", "└──", "été",
-                "名", "+-", "a--b", "1", "a0", "|--", "`--", "[x]", "{z}", "#1", "(y)", "a|b", "<p>", "x;y", "%%"],
+                "名", "+-", "a--b", "1", "a0", "|--", "`--", "[x]", "{z}", "#1", "(y)", "a|b", "<p>", "x;y", "%%", 'a"b', '"q"', "a\\b", "-->", "0-1", "a, b"],
     "digits": ["a", "a1", "a", "a0", "b", "b1", "a", "b", "1", "a", "10", "a"],
 }
 SEPS = ["/", "\\", "-", ".", "|"]
@@ -639,6 +640,26 @@ def _decorate(rng, case):
     case["tree"] = go(case["tree"])
 
 
+def _sep_tree(rng, sep):
+    """Names that contain the separator, arranged so that distinct nodes get one and the same path_name
+    (r/[a/b]/x and r/a/b/x), plus other nodes whose names merely contain it."""
+    j = lambda *parts: sep.join(parts)
+    tails = rng.choice([[["x", []]], [["x", []], ["y", []]], [["x", [["y", []]]]], []])
+    copy = lambda t: json.loads(json.dumps(t))
+    variants = [
+        ["r", [[j("a", "b"), copy(tails)], ["a", [["b", copy(tails)]]]]],
+        ["r", [["a", [["b", copy(tails)], [j("b", "c"), []]]], [j("a", "b"), copy(tails) + [["c", []]]]]],
+        ["r", [[j("a", "b", "c"), copy(tails)], [j("a", "b"), [["c", copy(tails)]]], ["a", [[j("b", "c"), copy(tails)]]]]],
+        [j("r", "s"), [["a", copy(tails)], [j("", "a"), []], [j("a", ""), copy(tails)]]],
+        ["r", [[sep, [["a", []]]], ["a", [[sep, []]]], [j("x", "y"), []]]],
+    ]
+    t = rng.choice(variants)
+    if rng.random() < 0.4:
+        t[1].append([rng.choice(["d", "x", j("d", "e")]), [["x", []]] if rng.random() < 0.5 else []])
+    rng.random() < 0.5 and rng.shuffle(t[1])
+    return t
+
+
 def gen_case(rng, kind=None):
     kind = kind or rng.choices(["v", "h", "dot", "mermaid"], weights=[36, 36, 16, 12])[0]
     binary = rng.random() < 0.2
@@ -658,6 +679,15 @@ def gen_case(rng, kind=None):
     names = {x[0] for _, x in tnodes(tree)}
     seps = [s for s in SEPS if not any(s in nm for nm in names)] or ["/"]
     sep = rng.choice(seps) if rng.random() < 0.5 else seps[0]
+    if rng.random() < (0.2 if kind == "mermaid" else 0.1):
+        # names containing the separator: distinct nodes with one path_name (tree_to_mermaid works on a clone
+        # whose separator is always "/")
+        sep = "/" if (kind == "mermaid" or rng.random() < 0.5) else rng.choice(SEPS)
+        binary, sk, pool_name = False, "sepnames", "with-separator"
+        tree = _sep_tree(rng, sep)
+        names = {x[0] for _, x in tnodes(tree)}
+        if kind == "dot" and "K7-C18" not in _FINDINGS() and k7_predicate({"tree": tree, "sep": sep}):
+            kind = "mermaid"         # until K7 is a listed finding the colliding dot cases are not generated
     case = {"kind": kind, "binary": binary, "tree": tree, "start": [], "start_mode": "object",
             "max_depth": 0, "sep": sep, "style": {"t": "name", "v": "const"}, "inter": True,
             "stratum": f"{kind}/{sk}/{pool_name}"}
@@ -816,6 +846,15 @@ K4_WITNESS = ["x", []]
 K5_WITNESS = ["a:b", [["c", []], ["a:c", []]]]
 
 
+_FIDS = []
+
+
+def _FINDINGS():
+    if not _FIDS:
+        _FIDS.append(_finding_ids())
+    return _FIDS[0]
+
+
 def _finding_ids():
     try:
         path = os.path.join(os.path.dirname(os.path.dirname(os.path.dirname(os.path.abspath(__file__)))),
@@ -827,6 +866,9 @@ def _finding_ids():
 
 def corpus(prop):
     out = []
+    if "K7-C18" in _finding_ids():
+        # two nodes labelled x with the same path_name /r/a/b/x: id x0 twice
+        out.append(("K7-dot-equal-path-names", _mk("dot", ["r", [["a/b", [["x", []]]], ["a", [["b", [["x", []]]]]]]])))
     if "K6-C18" in _finding_ids():
         # equal labels in two trees of one tree_to_dot([...]) call: a0 twice
         out.append(("K6-dot-list-collision", _mk("dot", ["a", [["b", []]]], more=[["a", [["c", []]]]])))
@@ -915,6 +957,21 @@ def _drawn(case):
     return t
 
 
+def k7_predicate(case):
+    """Input predicate of K7: a dot case in which two distinct nodes of one tree have the same label AND the same
+    path_name (possible only when a name contains the separator, or siblings share a name): tree_to_dot keys its
+    ids by (label, path_name), so both get one id."""
+    for t in [case["tree"]] + list(case.get("more", [])):
+        pn = path_names(t, case["sep"])
+        seen = set()
+        for pos, x in tnodes(t):
+            key = (x[0], pn[pos])
+            if key in seen:
+                return True
+            seen.add(key)
+    return False
+
+
 def k6_predicate(case):
     """Input predicate of K6 (candidate): tree_to_dot is given a LIST of trees and two of them contain an equal
     label at all — name_dict is created anew for every tree, so both get index 0 and hence the same id."""
@@ -940,6 +997,8 @@ def matches_finding(prop, entry, case, obs, flags):
         return case.get("kind") == "dot" and k2_predicate(case["tree"])
     if fid == "K4-C18":
         return case.get("kind") == "mermaid" and tsize(_drawn(case)) == 1
+    if fid == "K7-C18":
+        return case.get("kind") == "dot" and k7_predicate(case)
     if fid == "K6-C18":
         return case.get("kind") == "dot" and k6_predicate(case)
     if fid == "K5-C18":
